@@ -184,6 +184,9 @@ Ev(n, env) ==
          IN IF RaisesAt(env, "var:" \o n.name) THEN AbM("#ERROR!", ev, TRUE)
             ELSE IF ~IsBlank(sv) THEN R(OfVal(sv), ev)
             ELSE IF n.name \in DOMAIN env.vars THEN R(OfVal(env.vars[n.name]), ev)
+            ELSE IF n.name = "TRUE" THEN R(EVal(Bool(TRUE)), ev)       \* predefined on every parser (C09)
+            ELSE IF n.name = "FALSE" THEN R(EVal(Bool(FALSE)), ev)
+            ELSE IF n.name = "NULL" THEN R(EVal(Blank), ev)
             ELSE Ab("#NAME?", ev)
     [] n.k = "cell" ->
          IF RaisesAt(env, "cell:*") THEN AbM("#ERROR!", <<CellEvent(n.s)>>, TRUE) ELSE
